@@ -60,6 +60,8 @@ trait GlobalOps: Send + Sync {
     fn try_append(&self, e: IdEntry) -> Result<(), IdEntry>;
     fn append(&self, e: IdEntry);
     fn append_panicky(&self);
+    /// with_test_sink(sink, f) where f appends one entry through the global and then returns or panics
+    fn with_tl(&self, sink: CountingSink, id: u64, panics: bool);
     fn sink_append(&self, e: IdEntry);
     fn set_tl(&self, sink: CountingSink) -> ThreadLocalTestSinkGuard;
     fn set_rt(&self, h: &tokio::runtime::Handle, sink: CountingSink) -> TokioRuntimeTestSinkGuard;
@@ -90,6 +92,14 @@ macro_rules! impl_ops {
             }
             fn append_panicky(&self) {
                 <$g as GlobalEntrySink>::append(PanickyEntry)
+            }
+            fn with_tl(&self, sink: CountingSink, id: u64, panics: bool) {
+                $g::with_test_sink(BoxEntrySink::new(sink), || {
+                    <$g as GlobalEntrySink>::append(IdEntry { id });
+                    if panics {
+                        std::panic::panic_any("scripted panic inside the closure of with_test_sink");
+                    }
+                })
             }
             fn sink_append(&self, e: IdEntry) {
                 <$g as GlobalEntrySink>::sink().append_any(e)
@@ -182,6 +192,9 @@ enum Op {
     /// an append that panics inside the destination (caught): a failed append changes nothing for
     /// any later operation, in any context
     AppendPanicky { thread: usize, ctx: Option<usize> },
+    /// with_test_sink(sink, closure): the closure appends one entry and returns, or panics (caught);
+    /// either way the thread-local sink is gone afterwards
+    WithTestSink { thread: usize, panics: bool },
 }
 
 /// destination ids: index into `sinks`
@@ -319,6 +332,24 @@ impl Lane {
                 drop(self.rt_guards[rt].take());
                 self.model.rt[rt] = None;
             }
+            Op::WithTestSink { thread, panics } => {
+                let (k, sink) = self.new_sink();
+                let id = make_id(self.lane as u32, self.next_id);
+                self.next_id += 1;
+                let ops = self.ops.clone();
+                let had = self.model.tl[thread].is_some();
+                let r = self.workers[thread].run(move |_| ops.with_tl(sink, id, panics));
+                if !had {
+                    // the closure ran with the new sink as the thread's destination
+                    self.expected[k].push(id);
+                }
+                let expect_ok = !had && !panics;
+                if r.is_ok() != expect_ok {
+                    rep.violation("append-outcome-differs-from-routing-reference", witness("with_test_sink: returns iff no thread-local sink was installed before and the closure returned", json!({"thread_local_sink_installed_before": had, "closure_panics": panics, "returned": r.is_ok()})));
+                    return false;
+                }
+                // model: the thread's override is exactly what it was before the call
+            }
             Op::AppendPanicky { thread, ctx } => {
                 let dest = self.model.tl[thread].or(ctx.and_then(|r| self.model.rt[r])).or(self.model.attached);
                 // (not into a queue-backed attachment: there the entry would be written, and panic,
@@ -416,6 +447,9 @@ fn gen_op(rng: &mut Rng) -> Op {
             1 => Op::DropTlUnwinding { thread },
             _ => Op::DropRtUnwinding { rt: rng.usize_below(2) },
         };
+    }
+    if rng.below(25) == 0 {
+        return Op::WithTestSink { thread, panics: rng.bool() };
     }
     if rng.below(25) == 0 {
         return Op::AppendPanicky { thread, ctx: if rng.bool() { Some(rng.usize_below(2)) } else { None } };
@@ -754,6 +788,54 @@ fn noisy_history(lane_no: u64, ops: &Arc<dyn GlobalOps>, runtimes: &[Arc<tokio::
 
 /// a second global sink type with the SAME NAME as lane 0's, declared in another module (an
 /// application's own `ServiceMetrics` next to a library's): the two must not share anything
+/// Runtime test sinks of DIFFERENT runtimes installed, used and dropped on 2-4 threads at once (all
+/// released together, every iteration): a runtime's own sink receives exactly what is appended in its
+/// context while installed, nothing after its guard is dropped, and can be installed again.
+fn racing_runtime_sinks(lane_no: u64, ops: &Arc<dyn GlobalOps>, runtimes: &[Arc<tokio::runtime::Runtime>], round: u64, rep: &Report) -> bool {
+    let n = runtimes.len();
+    let gate = vcommon::sync::SpinGate::new(n);
+    let iterations = 300u32;
+    let bad: std::sync::Mutex<Option<vcommon::serde_json::Value>> = std::sync::Mutex::new(None);
+    std::thread::scope(|s| {
+        for (t, rt) in runtimes.iter().enumerate() {
+            let (gate, bad, ops) = (&gate, &bad, ops.clone());
+            s.spawn(move || {
+                let _enter = rt.enter();
+                for i in 0..iterations {
+                    gate.wait();
+                    if bad.lock().unwrap().is_some() {
+                        // keep in step with the other threads' gate
+                        continue;
+                    }
+                    let sink = CountingSink::new();
+                    let id_in = make_id((lane_no * 8 + t as u64) as u32, (round as u32) << 12 | i << 1);
+                    let id_after = id_in + 1;
+                    let installed = catch_unwind(AssertUnwindSafe(|| ops.set_rt(rt.handle(), sink.clone())));
+                    let Ok(guard) = installed else {
+                        *bad.lock().unwrap() = Some(json!({"what": "installing a test sink for this thread's own runtime panicked although the previous guard for that runtime had been dropped", "thread": t, "iteration": i}));
+                        continue;
+                    };
+                    let r_in = ops.try_append(IdEntry { id: id_in }).is_ok();
+                    drop(guard);
+                    let _ = ops.try_append(IdEntry { id: id_after });
+                    let got: Vec<u64> = sink.snapshot().iter().map(|a| a.u64_field("id").unwrap_or(u64::MAX)).collect();
+                    if !r_in || got != vec![id_in] {
+                        *bad.lock().unwrap() = Some(json!({"what": "runtime test sinks of different runtimes installed / used / dropped on several threads at once: a runtime's sink must receive exactly the entry appended in its context while installed",
+                            "thread": t, "iteration": i, "append_while_installed_accepted": r_in, "entries_at_this_runtimes_sink": got.iter().map(|x| *x as u32).collect::<Vec<_>>(), "expected": [id_in as u32]}));
+                    }
+                    progress_tick();
+                }
+            });
+        }
+    });
+    if let Some(w) = bad.lock().unwrap().take() {
+        rep.violation("runtime-test-sink-lost-or-resurrected", w);
+        return false;
+    }
+    rep.count("racing_runtime_sink_iterations", iterations as u64 * n as u64);
+    true
+}
+
 mod twin {
     use metrique_writer::sink::global_entry_sink;
     global_entry_sink! { G0 }
@@ -818,7 +900,7 @@ fn main() {
          (destination, documented panic, entry handed back unchanged) is compared with a reference routing state machine (thread > runtime > attached > none) and at the end every destination must have received exactly \
          the predicted ids in order; after expected panics the history continues. Racing part: 3 threads try_append while the handle of a BackgroundQueue-backed attachment is dropped: Ok <=> written before the drop returned. \
          Noisy part: while threads in another runtime's context append / query and one thread makes rejected attach attempts, a runtime test sink is installed, used, dropped: routing of the probing thread must be unaffected and no append handed back. \
-         Racing attach: 2-4 threads attach to the detached global at once: exactly one succeeds, the rest panic, entries reach the winner's sink only. \
+         Racing runtime sinks: four runtimes' test sinks installed / used / dropped on four threads at once. Racing attach: 2-4 threads attach to the detached global at once: exactly one succeeds, the rest panic, entries reach the winner's sink only. \
          distinct = distinct op histories / races with both outcomes",
     );
     let budget = Duration::from_secs(args.get_u64("secs", args.by_tier(8, 100)));
@@ -843,6 +925,9 @@ fn main() {
                     next_id: 0,
                     lane: lane_no,
                 };
+                // four more runtimes: the two of the lane plus two that only the racing-install part uses
+                let mut race_rts = lane.runtimes.clone();
+                race_rts.extend((0..2).map(|_| Arc::new(tokio::runtime::Builder::new_current_thread().build().unwrap())));
                 if lane_no == 0 && !same_named_globals(&lane.runtimes, rep) {
                     return;
                 }
@@ -868,6 +953,15 @@ fn main() {
                     } else if round % 8 == 2 {
                         lane.step(&Op::DetachDrop, &[], rep);
                         if !racing_attach(lane_no, &ops, round, rep) {
+                            return;
+                        }
+                    } else if round % 32 == 9 {
+                        // (detached: what is appended after a guard is dropped is handed back)
+                        lane.step(&Op::DetachDrop, &[], rep);
+                        for r in 0..2 {
+                            lane.step(&Op::DropRt { rt: r }, &[], rep);
+                        }
+                        if !racing_runtime_sinks(lane_no, &ops, &race_rts, round, rep) {
                             return;
                         }
                     } else if !history(&mut lane, &mut rng, rep) {
